@@ -196,6 +196,8 @@ type c07Sc struct {
 	FilePart bool   `json:"file_part,omitempty"`
 	HeadSize int    `json:"head_size,omitempty"`
 	Pad      string `json:"pad,omitempty"` // uri | value | many
+	Expect   bool   `json:"expect,omitempty"`  // server: the request carries Expect: 100-continue (body read by ContinueReadBody)
+	PerReq   bool   `json:"per_req,omitempty"` // server: L is set per request through Server.HeaderReceived, the server-wide limit is 64 MiB
 }
 
 func (s c07Sc) String() string { b, _ := json.Marshal(s); return string(b) }
@@ -350,7 +352,11 @@ func c07Statuses(out []byte) (codes []int, closeHdr bool) {
 func c07RunServer(r *vrt.R, st *c07Stats, sc c07Sc) {
 	limit := c07EffLimit(sc)
 	g := &c07Gen{perRead: sc.PerRead}
-	proofOff, total := c07Body(g, "POST /upload HTTP/1.1\r\nHost: h\r\n", sc, limit)
+	head := "POST /upload HTTP/1.1\r\nHost: h\r\n"
+	if sc.Expect {
+		head += "Expect: 100-continue\r\n"
+	}
+	proofOff, total := c07Body(g, head, sc, limit)
 	g.cap = limit*8 + 64<<20
 	conn := &c07Conn{gen: g}
 	var calls int
@@ -371,8 +377,18 @@ func c07RunServer(r *vrt.R, st *c07Stats, sc c07Sc) {
 		Logger:             c07NopLogger{},
 		NoDefaultDate:      true,
 	}
+	if sc.PerReq {
+		s.MaxRequestBodySize = 64 << 20
+		s.HeaderReceived = func(*RequestHeader) RequestConfig { return RequestConfig{MaxRequestBodySize: sc.L} }
+	}
 	s.ServeConn(conn)
-	codes, _ := c07Statuses(conn.out.Bytes())
+	allCodes, _ := c07Statuses(conn.out.Bytes())
+	var codes []int
+	for _, c := range allCodes {
+		if c != 100 { // the interim response to Expect: 100-continue
+			codes = append(codes, c)
+		}
+	}
 	over := proofOff >= 0
 	what := func(msg string) string {
 		return fmt.Sprintf("%s: %s (statuses %v, handler saw bodies %v, pulled %d, closed %d)", sc, msg, codes, seen, g.pulled, conn.closed)
@@ -979,13 +995,31 @@ func c07Scenarios(r *vrt.R) []c07Sc {
 	for _, L := range append(append([]int{}, limits...), 0, -1) {
 		bodyShapes("server", L, false)
 	}
+	// server: body read after Expect: 100-continue, and limit configured per request (default buffers only)
+	srv := len(out)
+	save1, save2 := rbss, perReads
+	rbss, perReads = []int{0}, []int{0}
+	for _, L := range limits {
+		bodyShapes("server", L, false)
+	}
+	n := len(out)
+	for i := srv; i < n; i++ {
+		a, b := out[i], out[i]
+		out[i].Expect = true
+		a.PerReq = true
+		b.PerReq, b.Expect = true, true
+		out = append(out, a)
+		if r.Thorough() {
+			out = append(out, b)
+		}
+	}
+	rbss, perReads = save1, save2
 	for _, L := range limits {
 		bodyShapes("hostclient", L, true)
 		bodyShapes("resp-direct", L, true)
 		bodyShapes("req-direct", L, false)
 	}
 	// Client (the wrapper around HostClient): default buffers only
-	save1, save2 := rbss, perReads
 	rbss, perReads = []int{0}, []int{0}
 	for _, L := range limits {
 		bodyShapes("client", L, true)
@@ -1053,7 +1087,7 @@ func TestVerif_C07(t *testing.T) {
 		r.Eval(1)
 		return
 	}
-	r.Rule("every (mode, limit L, ReadBufferSize, network read size, body shape) scenario of the listed grid: modes = Server.ServeConn with MaxRequestBodySize (incl. 0 and -1 = 4 MiB default), " +
+	r.Rule("every (mode, limit L, ReadBufferSize, network read size, body shape) scenario of the listed grid: modes = Server.ServeConn with MaxRequestBodySize (incl. 0 and -1 = 4 MiB default; also with Expect: 100-continue and with the limit set per request by HeaderReceived), " +
 		"HostClient/Client.Do with MaxResponseBodySize, Request/Response.ReadLimitBody; L in {1,2,100,4095,4096,4097,1 MiB}; shapes = Content-Length L-1/L/L+1/2^40-with-endless-payload, " +
 		"chunked with chunk size 1/L/L+1/4096 and total L-1/L/L+1/L+5000/endless, identity-until-close L-1/L/L+1/L+5000/endless (responses); all streams come from a lazy generator that counts pulled bytes. " +
 		"Oracle: nothing larger than L is returned or dispatched; over-limit => ErrBodyTooLarge (client, readers) or exactly one status>=400 response, close and no further read (server); " +
